@@ -125,7 +125,7 @@ def build(k, challenge, now, mut, other_chal, closed_chal):
 
 class Auth(Sub):
     name = "auth"
-    examples = {"quick": 1500, "thorough": 60000}
+    examples = {"quick": 1500, "thorough": 12000}
     shards = {"quick": 10, "thorough": 16}
     rule = RULE
 
